@@ -44,9 +44,13 @@ Cap == [
   \*   junk (65535 bytes / 16383 communities: a legal attribute no message has room for) -> whether to accept them at parse
   \*        time, when the session is not known, is ExaBGP's choice (Free); what is accepted must still never raise
   \*   huge (65536 bytes / 16384 communities: no attribute can hold it)  -> refused
-  attrlen |-> "alen", commcount |-> "ccount" ]
+  attrlen |-> "alen", commcount |-> "ccount",
+  \* an extended community written in hexadecimal: the number of bytes.  RFC 4360: eight, no more, no fewer --
+  \* low = max = 8 (accepted, carried), over = 9, huge = 70, neg = 7, junk = 1 (refused, not truncated or padded)
+  echexlen |-> "eclen",
+  sidplain |-> "b4", sidsrv6plain |-> "b4" ]
 Lengths == {"attrlen", "commcount"}
-Shape == {"rdplain", "vrdplain", "frdplain", "aggrplain", "rtplain", "largetwo", "nhnum"}
+Shape == {"rdplain", "vrdplain", "frdplain", "aggrplain", "rtplain", "largetwo", "nhnum", "sidplain", "sidsrv6plain"}
 Free(r) == r.field \in Shape \/ (r.field \in Lengths /\ r.val \in {"neg", "junk"})
 Fields == DOMAIN Cap
 \* the in-range value used as "low" for each field (small, so that TLC can do arithmetic on it)
@@ -127,6 +131,7 @@ Frag(r, s) ==
     [] f = "attrlen"  -> IF v = "over" THEN <<208, 200, 1, 0, 171, 171>> ELSE <<192, 200, IF v = "max" THEN 255 ELSE 77, 171, 171>>
     [] f = "commcount" -> IF v = "over" THEN <<208, 8, 1, 0, 0, 1, 0, 0, 0, 1, 0, 1>>                    \* 64 communities 1:0 1:1 ...: 256 bytes
                           ELSE <<192, 8, IF v = "max" THEN 252 ELSE 40, 0, 1, 0, 0, 0, 1, 0, 1>>
+    [] f = "echexlen" -> <<192, 16, 8, 0, 2, 253, 232, 0, 0, 0, 1>>
     [] f = "nhoct"    -> <<64, 3, 4, 1, 2, 3>> \o V1(f, v)
     [] f = "pfxoct"   -> <<24, 10, 0>> \o V1(f, v)
     [] f = "origoct"  -> IF s = "i4" THEN <<128, 9, 4, 10, 0, 0>> \o V1(f, v) ELSE <<>>
